@@ -35,9 +35,19 @@ func c01Apply(w *vx.W, s *c01State, op c01Op) bool {
 		if d.kind == c01KField {
 			return true
 		}
+	case c01KFill:
+		// seed prefix: one block of many small new fields (the table checks are
+		// made once, at the end of the block; the other parts make them per write)
+		for _, f := range d.fs {
+			out, ok := c01WriteField(w, s, f)
+			if !ok {
+				return false
+			}
+			s.block = append(s.block, out...)
+		}
 	}
 	// End
-	after := fmt.Sprintf("block %s (wire %x)", c01FieldsString(s.pend), s.block)
+	after := fmt.Sprintf("block %s (wire %s)", c01FieldsString(s.pend), c01Hex(s.block))
 	reprs, rerr := s.ref.decode(s.block)
 	s.ref.fieldSeen = false
 	lead, minUpd := c01LeadingUpdates(reprs)
@@ -123,6 +133,10 @@ func c01Apply(w *vx.W, s *c01State, op c01Op) bool {
 	sort.Strings(kl)
 	for _, k := range kl {
 		w.Outcome("repr:" + k)
+	}
+	// which shapes of RFC 7541 §5.1 prefixed integers the accepted blocks contained
+	for _, o := range s.ref.ints {
+		w.Outcome(c01IntClass(o))
 	}
 	w.Outcome(fmt.Sprintf("end:updates=%d,ents=%d", lead, min(len(s.enc.dynTab.table.ents), 4)))
 	w.Distinct(strings.Join(kl, ",") + fmt.Sprintf("|%d|%x", lead, s.block))
@@ -210,14 +224,50 @@ func TestVerif_C01(t *testing.T) {
 			seeds = seeds[:2]
 		}
 		d0, d1, dCore := vx.Pick(c, 3, 5), 4, 6
+
+		// Prefixed-integer boundary parts (see c01BoundaryOps).
+		_, strDefs, longDefs, idxDefs := c01BoundaryOps()
+		// quick: every single boundary field in every representation kind (depth 2 = one-field
+		// blocks from three table situations); thorough: depth 3 with the size changes as operations
+		strOps := append(c01Ops(c01Labels(strDefs)...), c01Ops("End")...)
+		strSeeds := [][]c01Op{nil, c01Ops("F(k=v)", "End"), c01Ops("Peer(0)")}
+		dStr := 2
+		if !c.Quick() {
+			strOps = append(strOps, c01Ops("Peer(0)", "Peer(4096)")...)
+			strSeeds = strSeeds[:2]
+			dStr = 3
+		}
+		// blocks of two (thorough: three) boundary fields: whatever follows a length on the wire
+		var pairLabels []string
+		for _, d := range strDefs {
+			if !d.f.Sensitive {
+				pairLabels = append(pairLabels, d.label)
+			}
+		}
+		pairOps := append(c01Ops(pairLabels...), c01Ops("End")...)
+		dPair := vx.Pick(c, 3, 4)
+		longOps := append(c01Ops(c01Labels(longDefs)...), c01Ops("F(k=v)", "End")...)
+		longSeeds := strSeeds
+		dLong := 2
+		if !c.Quick() {
+			longOps = append(longOps, c01Ops("Peer(0)")...)
+			dLong = 3
+		}
+		idxOps := append(c01Ops(c01Labels(idxDefs[1:])...), c01Ops("End")...)
+		idxSeeds := [][]c01Op{c01Ops("Limit(16384)", "Peer(8192)", idxDefs[0].label)}
+		dIdx := vx.Pick(c, 2, 4)
+		updOps := c01Ops("B(k=v)", "B(k=w)", "Peer(30)", "Peer(31)", "Peer(32)", "Peer(158)", "Peer(159)", "Peer(160)", "Peer(4096)")
+		dUpd := vx.Pick(c, 4, 6)
 		c.Rule(fmt.Sprintf("breadth-first search over every sequence of operations {%s} on one real Encoder + one real Decoder (NewDecoder(4096)) + an RFC 7541 reference decoder: part seq-seeded = depth %d from seed states whose tables hold 1, 2(, 3 in the thorough tier) small entries (seeds %v), part seq = depth %d from the initial state; states deduplicated on (encoder table/maxSize/minSize/tableSizeUpdate/maxSizeLimit, decoder table/maxSize/allowedMax, reference table, open block fields+bytes, size-change model). F/S write a (sensitive) field into the open block; End feeds the block to Decoder.Write in one piece + Close and compares emitted fields, errors, all three tables and the table index maps; Peer(v)=dec.SetAllowedMaxDynamicTableSize(v)+enc.SetMaxDynamicTableSize(v), Limit(w)=enc.SetMaxDynamicTableSizeLimit(w), both only between blocks. non-trivial = an applied transition whose comparisons were made (a branch is pruned after a divergence); distinct = distinct (representation kinds, size updates, block bytes) of accepted blocks", lab(ops), d1, seeds, d0))
 		c.Rule(fmt.Sprintf("part seq-blocks: the same search to depth %d from the initial state over {%s}, where B(f) is a complete one-field header block (write f, End)", dBlocks, lab(blockOps)))
 		c.Rule(fmt.Sprintf("part seq-large: the same to depth %d over {%s} (table sizes above the 4096 default)", dLarge, lab(largeOps)))
 		if !c.Quick() {
 			c.Rule(fmt.Sprintf("thorough only, part seq-core: the same search to depth %d from the first two seeds over the smaller alphabet {%s}", dCore, lab(coreOps)))
 		}
+		c.Rule(fmt.Sprintf("prefixed-integer boundaries (RFC 7541 section 5.1: an N-bit-prefix integer changes shape at 2^N-1 and where the remainder above it reaches 128 and 16384), same search and oracle. part seq-strlen: depth %d from the initial state and from the seeds %v over {%s}, where rawL / hufL is a name or value whose string literal is exactly L octets long on the wire (rawL = L x 'X', not Huffman-shorter; hufL = floor(8L/5) x 'a', Huffman-coded to L octets), L in %v = both sides of and on 127 (prefix max) and 255 (remainder 128), as new-name / dynamic-name literal with incremental indexing, never-indexed literal (S) and, after Peer(0), literal without indexing. part seq-strlen-pairs: depth %d from the initial state over {%s} (blocks of several boundary-length fields). part seq-strlen-long: depth %d from the same seeds over {%s}, L in %v (remainder 16384). part seq-index: depth %d from the seed %v (a table of 8192 holding %d entries x000=v..x%03d=v, xI at index %d-I) over {%s}: xI=v is an indexed field at index %v (7-bit prefix: 127, 255), xI=w a literal with incremental indexing whose name index is %v (6-bit: 63, 191; it inserts an entry, so deeper sequences also reach the neighbouring indexes), S(xI=w) a never-indexed literal with name index %v (4-bit: 143). part seq-sizeupd: depth %d from the initial state over {%s} (5-bit prefix size update: 31, 159). The evidence outcomes intN:<class> list the integer shapes the reference decoder read in accepted blocks",
+			dStr, strSeeds[1:], lab(strOps), c01StrLens, dPair, lab(pairOps), dLong, lab(longOps), c01LongStrLens, dIdx, idxSeeds[0], c01FillN, c01FillN-1, c01FillN+61, lab(idxOps), c01IdxIndexed, c01IdxIncremental, c01IdxNever, dUpd, lab(updOps)))
 		c.Assume("Table-size changes happen only between header blocks; empty header blocks are not generated; the block is fed to Decoder.Write in one piece (splits are C03).")
-		c.Assume("Indexed references >= 127 (66+ dynamic entries), strings >= 127 bytes and table sizes other than {0,30,31,33,70,4096,8192} are outside the bound. Decoder string-length limit and SetEmitEnabled(false) are not used.")
+		c.Assume("Outside the bound: indexes above 256+depth, string literals longer than 256 octets other than 16510..16512, prefixed integers whose remainder reaches 128^3, table sizes other than {0,30,31,32,33,70,158,159,160,4096,8192}; the length-boundary strings are runs of one octet ('X' raw, 'a' Huffman) in fields whose other half is k or v. Decoder string-length limit and SetEmitEnabled(false) are not used.")
 		c.Assume("Encoder and decoder entry lists are required to be equal only while no encoder-local SetMaxDynamicTableSizeLimit call has shrunk the encoder table in the history; after such a call the encoder table must still be the newest part of the decoder table (the encoder does not signal that low-water mark; the round trip is unaffected).")
 		c.Assume("The Huffman code table data (huffmanCodes/huffmanCodeLen) is shared with the reference decoder; C04 checks it.")
 
@@ -232,6 +282,16 @@ func TestVerif_C01(t *testing.T) {
 		}
 		vx.Seq(c, spec)
 		spec.Part, spec.Ops, spec.Depth = "seq-large", largeOps, dLarge
+		vx.Seq(c, spec)
+		spec.Part, spec.Ops, spec.Seeds, spec.Depth = "seq-strlen", strOps, strSeeds, dStr
+		vx.Seq(c, spec)
+		spec.Part, spec.Ops, spec.Seeds, spec.Depth = "seq-strlen-pairs", pairOps, nil, dPair
+		vx.Seq(c, spec)
+		spec.Part, spec.Ops, spec.Seeds, spec.Depth = "seq-strlen-long", longOps, longSeeds, dLong
+		vx.Seq(c, spec)
+		spec.Part, spec.Ops, spec.Seeds, spec.Depth = "seq-index", idxOps, idxSeeds, dIdx
+		vx.Seq(c, spec)
+		spec.Part, spec.Ops, spec.Seeds, spec.Depth = "seq-sizeupd", updOps, nil, dUpd
 		vx.Seq(c, spec)
 		spec.Part, spec.Ops, spec.Seeds, spec.Depth = "seq-seeded", ops, seeds, d1
 		vx.Seq(c, spec)
